@@ -129,7 +129,11 @@ def c14(tier):
                  recv_spec('pings-with-compression-negotiated', tags + ['C01'], N=5, first_opcodes=[9, 1], no_rsv=True, negotiate_compression=True),
                  recv_spec('recv-N5-writefault', tags, N=5, first_opcodes=[9, 1, 2, 0],
                            fault=dict(ops=['sendall'], kinds=['oserror', 'exception'], max=1, skip={'sendall': 1}))]
-    return run_property('C14', tier, specs, 'model_checking', 'ping/pong', ENV_ASSUMPTIONS, RECV_FUNCS)
+    specs.append(sched_spec('ping-while-another-thread-sends', tags, [['loop'], ['send_text']], 2,
+                            'thread 1 runs the REAL event loop and receives a Ping while thread 2 is anywhere inside send_text - also in the middle of its '
+                            'sendall, holding the write lock (deterministic scheduler, schedule = solver variables): exactly one Pong with the Ping\'s payload',
+                            hs_separate=True, xval_stride=11))
+    return run_property('C14', tier, specs, 'model_checking', 'ping/pong', ENV_ASSUMPTIONS + SCHED_ASSUME, RECV_FUNCS + SCHED_FUNCS)
 
 
 # endings of an earlier connection (another WebSocket object in the same process): clean text, text cut inside a character,
@@ -766,6 +770,10 @@ def c12(tier):
         sched_spec('closed-event-vs-send', tags, [['close', 'server_close'], ['send_text']], 2,
                    W + ' (thread 1 closes and then processes the server\'s Close reply - the Closed event is handed to the application, a preemption point - '
                        'while thread 2 sends)'),
+        sched_spec('close-vs-compressed-send', tags, [['close'], ['send_text']], 2,
+                   W + ' (permessage-deflate negotiated: the sender goes through the compressed send path)', compress=dict(client_no_takeover=False)),
+        sched_spec('server-close-vs-compressed-send', tags, [['server_close'], ['send_binary']], 2,
+                   W + ' (loop echoing a server Close vs a compressed application send)', compress=dict(client_no_takeover=False)),
     ]
     if not q:
         specs += [sched_spec('close-send-send', tags, [['close'], ['send_text'], ['send_binary']], 2, W),
